@@ -132,7 +132,7 @@ def XsdDuration (s : Str) (neg : Bool) (y mo d h mi : Option Str) (sec : Option 
   duDigits y ∧ duDigits mo ∧ duDigits d ∧ duDigits h ∧ duDigits mi ∧ duSeconds sec ∧
   (y.isSome ∨ mo.isSome ∨ d.isSome ∨ h.isSome ∨ mi.isSome ∨ sec.isSome) ∧
   s = (if neg then ['-'] else []) ++ 'P' :: (duFrag y 'Y' ++ duFrag mo 'M' ++ duFrag d 'D' ++
-    (if h.isSome ∨ mi.isSome ∨ sec.isSome then
+    (if h.isSome || mi.isSome || sec.isSome then
       'T' :: (duFrag h 'H' ++ duFrag mi 'M' ++ duFrag sec 'S') else []))
 
 end Xs.Spec
